@@ -506,3 +506,55 @@ def run_delete_key(run, P):
             run.instance('R-OBS-RST', '%s: deletes the observer a loop is looking at' % name)
         solve(f, Env(), on_event, None, keys, R, key_fn=lambda e: (tuple(sorted((k, v) for k, v in e.atoms.items() if any(x in k for x in xvars))), tuple(sorted((k, v) for k, v in e.ts.items() if k.startswith('via:')))), max_envs=128)
     run.require(n >= (2 if run.cfg == 'base' else 0) or run.fixture_mode, 'R-OBS-RST(whose observer): fewer than 2 deletions of a looked-at observer found')
+
+
+def run_delete_all(run, P, fname='coap_delete_observers'):
+    """R-OBS-RST (session loss removes every observer): when a session is lost, coap_delete_observers() is the only clean-up of what that
+    session observes.  A client may hold several observations on one resource (different queries: different cache keys), so the removal
+    has to visit every subscription of every resource: structurally, a subscription is freed (coap_free_type(COAP_SUBSCRIPTION, ..) or a
+    helper that does it) inside a loop that walks a subscriber list (a loop that advances a coap_subscription_t pointer).  A single
+    look-up-and-delete per resource leaves the second observation alive: it keeps its session reference and keeps being notified."""
+    from rules.r_sizefill import natural_loops
+    run.rule('R-OBS-RST')
+    if not P.has(fname):
+        run.require(run.fixture_mode or run.cfg != 'base', 'R-OBS-RST(session loss): anchor %s() not found' % fname)
+        return
+    f = P.func(fname)
+    B = f['B']
+    loops = natural_loops(f)
+    # helpers that free a subscription
+    SUB = None
+    try:
+        SUB = P.const_named('COAP_SUBSCRIPTION')
+    except Exception:
+        pass
+
+    def frees_sub(t):
+        if t.get('k') != 'call':
+            return False
+        if t.get('fn') == 'coap_free_type' and t.get('a') and (SUB is None or const_int(t['a'][0]) == SUB):
+            return True
+        return t.get('fn') in ('coap_delete_observer_internal',)
+    ok = False
+    nloops = 0
+    for h, body in loops.items():
+        walks = False
+        for bid in body:
+            for ev in B[bid]['elems']:
+                t = ev['e']
+                if t.get('k') == 'asg' and isinstance(strip(t['l']), dict) and strip(t['l']).get('k') == 'var' and strip(t['l']).get('prec') == 'coap_subscription_t':
+                    walks = True
+            c = (B[bid].get('term') or {}).get('cond')
+            if c is not None and any(isinstance(x, dict) and x.get('k') == 'var' and x.get('prec') == 'coap_subscription_t' for x in walk(c)):
+                walks = walks or bid == h
+        if not walks:
+            continue
+        nloops += 1
+        if any(frees_sub(ev['e']) for bid in body for ev in B[bid]['elems']):
+            ok = True
+    run.instance('R-OBS-RST', '%s: frees subscriptions inside a loop over a subscriber list (%d such loop(s))' % (fname, nloops))
+    run.oblige('R-OBS-RST', ok, '%s:removes-every-subscription' % fname)
+    if not ok:
+        run.violation('R-OBS-RST', fname, f['loc'], 'session-loss-removes-one-observer-only',
+                      '%s() no longer frees subscriptions inside a loop that walks a subscriber list: a session that holds several observations on one resource keeps all '
+                      'but one of them after it is lost, with their session references, and they are still notified' % fname, [])
